@@ -1,0 +1,10 @@
+//go:build !verif
+
+package router
+
+// Hooks of the buffer-ownership tracker (see pooltrack_verif.go, build tag verif). In a normal
+// build they are empty and inlined away.
+
+func verifOnGet(*Packet) {}
+
+func verifOnPut(*Packet) {}
